@@ -10,7 +10,7 @@ BUDGET = {
 }
 DECIDING = ["bms.write", "fileio.write_file"]
 RULE = ("In-memory BMS charts for the five layouts: 1..40 tempo points on measure lines (first at 0 ms; bpm with <=3 decimals and "
-        "arbitrary floats; one 1295-point case in thorough), hits and holds on every lane at k/d beats for d in 1..96 (incl. measures "
+        "arbitrary floats; 990-point cases in thorough - the 3-digit measure field caps tempo points on measure lines below the documented 1295), hits and holds on every lane at k/d beats for d in 1..96 (incl. measures "
         "whose denominators have an LCM >= 100, forcing several lines per measure and channel) and at off-grid millisecond times, with "
         "known and unknown samples, unsorted lists, and charts obtained by reading generated BMS texts; the monitor on BMSMap.write parses "
         "the bytes with rv/ref/bms.py: line syntax, object conservation per lane, head/LNOBJ pairing, times (exact on grid, 1/192 beat "
@@ -41,8 +41,8 @@ def gen(rng, tier, k):
     n_meas = rng.randint(1, 6)
     n_t = {"many_tempo": rng.choice([10, 25, 40]), "unsorted": rng.choice([2, 3, 5])}.get(cls, rng.choice([1, 1, 2, 3, 5]))
     if tier == "thorough" and k % 4000 == 17:
-        n_t = 1295
-    meas = sorted({0} | {rng.randint(1, max(n_meas, n_t * 2)) for _ in range(n_t - 1)})
+        n_t = 990  # the measure field has 3 digits: tempo points on measure lines cannot exceed 1000
+    meas = sorted({0} | {rng.randint(1, min(998, max(n_meas, n_t * 2))) for _ in range(n_t - 1)}) if n_t < 900 else list(range(n_t))
     n_meas = max(n_meas, meas[-1] + 1)
     bpmf = (lambda: rng.choice([120.0, 150.0, 90.0, 180.5, 173.25, 60.0, 200.0, 139.999, 222.22])) if cls != "float_bpm" else (lambda: rng.uniform(40, 400))
     tempo = [[m, bpmf()] for m in meas]
